@@ -77,7 +77,8 @@ def expr_str():
 
 
 HOSTILE_ATOMS = list("ab1 _.-/:[],<>{}$#§→⊕∧|&+~%=;()\"\\'") + [
-    "\n", "\t", "\u00e9", "e\u0301", "\U0001F600", "::", "//", "true", "null", "vs", "->", "<->", "```", "===", "---", "\r"]
+    "\n", "\t", "\u00e9", "e\u0301", "\U0001F600", "::", "//", "true", "null", "vs", "->", "<->", "```", "===", "---",
+    "\x0c", "\x85", "\u2028", "\x1c", "\r"]  # (FF, NEL, LS, FS: line breaks for str.splitlines(), ordinary data for OCTAVE)
 
 
 def nearbare():
@@ -154,7 +155,7 @@ def atom(avoid=frozenset()):
 def zone_value(avoid=frozenset()):
     line = st.one_of(
         st.lists(st.sampled_from(HOSTILE_ATOMS[:-1] + ["  ", "KEY::v", "===END===", "---", "// c", "`", "``", "\\n", "\\t",
-                                                       "é", "é", "def f():", "    return 1"]),
+                                                       "é", "é", "def f():", "    return 1", "\x0c", "\x85", "\u2028"]),
                  min_size=0, max_size=5).map("".join).map(lambda s: s.replace("\n", "").replace("\r", "")),
         st.sampled_from(["", " ", "\tindented with tab", "  two spaces", "trailing   ", "x = [1, 2]", "a -> b", "A::B",
                          "===END===", "---", "``", "` `` `", "\"quoted\"", "back\\slash\\n", "é nfd", "#!/bin/sh",
@@ -237,7 +238,8 @@ def node(depth: int, avoid=frozenset(), zones: bool = True, comments: bool = Tru
 FRONTMATTER = st.one_of(
     st.none(), st.none(), st.none(),
     st.lists(st.sampled_from(["name: agent", "description: Does things (carefully)", "tools: [a, b]", "# yaml comment",
-                              "key: \"quoted: value\"", "tabbed:\tvalue", "  nested: 1", "émoji: 😀", "a: b -> c"]),
+                              "key: \"quoted: value\"", "tabbed:\tvalue", "  nested: 1", "émoji: 😀", "a: b -> c", "form\x0cfeed: 1", "nel\x85x: 2",
+                              "ls\u2028sep: 3", "tmpl: foo{bar}", "q: \"unbalanced"]),
              min_size=1, max_size=4).map("\n".join),
 )
 
